@@ -131,6 +131,9 @@ structure DB where
       `SetTransactionHistoryExecuted` so far, in order, as (entry hash, status written). It lets
       theorems speak about "a status was recorded for this entry while this block was applied". -/
   statusLog : List (Hash × Int) := []
+  /-- history variable (never read by the model): the entry hashes `applyTransactionBatch` went on
+      to record, in order — one element per EXECUTION of a batch. -/
+  execLog : List Hash := []
   deriving Repr
 
 abbrev LM := M DB
